@@ -181,3 +181,16 @@ Lemma c09_nonvacuous_l :
   r_g (restart c true s) = [5; 4] /\ inst_vars (restart c true s) 0 = [21; 2] /\
   r_pinst s = r_pinst (fresh c) /\ length (r_heap s) = length (c_progs c).
 Proof. repeat split; vm_compute; reflexivity. Qed.
+
+(* ---- event tasks ---- *)
+From TP Require Import Model.RestartTasks.
+Lemma restart_recreates_task_state s : ev_step false false s ERestart = ev_fresh.
+Proof. reflexivity. Qed.
+(* hence after a restart every later input trace drives the event task exactly as on a freshly built runtime *)
+Lemma restarted_event_task_is_fresh s ops : ev_run false (ev_step false false s ERestart) ops = ev_run false ev_fresh ops.
+Proof. reflexivity. Qed.
+Lemma stale_latch_swallows_edge :
+  let s := ev_run true ev_fresh [ESetTrig true; ECycle; ERestart; ESetTrig true; ECycle] in
+  let f := ev_run true ev_fresh [ESetTrig true; ECycle] in
+  e_count s = 0 /\ e_count f = 1.
+Proof. vm_compute. auto. Qed.
